@@ -53,10 +53,10 @@ OBLIGATIONS_C09 = [
 BD_UNITS = [S + "common/common.c", S + "check/check.c", S + "common/block_util.c"]
 OBLIGATIONS.append(Obligation(
     name="block_body_rules", src="blockdec.c", func="harness_block_body", units=BD_UNITS,
-    defs=["VLOOP_MEM", "VLOOP_MEM_ONECHECK"], qdefs=["PMAX=5", "CHKMAX=8", "CALLS=2"], tdefs=["PMAX=6", "CHKMAX=32", "CALLS=3"],
+    defs=["VLOOP_MEM", "VLOOP_MEM_ONECHECK"], qdefs=["PMAX=5", "CHKMAX=8", "CALLS=2"], tdefs=["PMAX=6", "CHKMAX=8", "CALLS=3"],
     hdefs=["lzma_raw_decoder_init=vstub_raw_decoder_init", "lzma_check_init=vstub_check_init",
            "lzma_check_update=vstub_check_update", "lzma_check_finish=vstub_check_finish"],
-    qunwind=19, tunwind=44, timeout_q=280, timeout_t=3000, mem_gb=12,
+    qunwind=19, tunwind=20, timeout_q=400, timeout_t=3600, mem_gb=12,
     fp_restrict=["harness_block_body.function_pointer_call.1/block_decode",
                  "block_decode.function_pointer_call.1/raw_code"],
     functions=["lzma_block_decoder_init", "block_decode", "is_size_valid", "lzma_check_size",
@@ -71,11 +71,33 @@ OBLIGATIONS.append(Obligation(
          "after the Check field, actual sizes and the raw Check are handed back, exactly the produced bytes "
          "were fed to the integrity check; no out-of-bounds access",
     bounds_q="payload 1..5 compressed / 0..5 uncompressed bytes, every Check id with field size <= 8, Block version 0/1, 2 symbolic cut points for input and output + final call",
-    bounds_t="payload <= 6 bytes, Check field sizes <= 32 (ids 0..12), 3 cut points",
+    bounds_t="payload <= 6 bytes, 3 cut points (32-byte Check fields: block_body_rules_check32)",
+    outside="the filter chain itself; Check ids with 64-byte fields; payloads beyond the bound (the accounting is by counters, not by content)"))
+OBLIGATIONS.append(Obligation(
+    name="block_body_rules_check32", tiers=("thorough",), src="blockdec.c", func="harness_block_body", units=BD_UNITS,
+    defs=["VLOOP_MEM", "VLOOP_MEM_ONECHECK"], tdefs=["PMAX=2", "CHKMAX=32", "CALLS=1"],
+    hdefs=["lzma_raw_decoder_init=vstub_raw_decoder_init", "lzma_check_init=vstub_check_init",
+           "lzma_check_update=vstub_check_update", "lzma_check_finish=vstub_check_finish"],
+    tunwind=40, timeout_q=400, timeout_t=3600, mem_gb=12,
+    fp_restrict=["harness_block_body.function_pointer_call.1/block_decode",
+                 "block_decode.function_pointer_call.1/raw_code"],
+    functions=["lzma_block_decoder_init", "block_decode", "is_size_valid", "lzma_check_size",
+               "lzma_check_is_supported", "lzma_block_unpadded_size", "lzma_bufcpy"],
+    stubs=["filter chain (lzma_raw_decoder_init / next.code): payload is P compressed bytes decoding to U bytes; each call consumes/produces arbitrary amounts within its limits, STREAM_END exactly when both complete, otherwise returns only when it lacks needed input or room for pending output",
+           "lzma_check_init/update/finish: the check value over the produced bytes is an arbitrary byte string EXP; the harness verifies that exactly the produced bytes are fed, in order"],
+    desc="Block decoder (lzma_block_decoder_init + block_decode) on every Block body and every slicing: for "
+         "header sizes that are absent or right the result is OK while incomplete, STREAM_END exactly for a "
+         "complete body with zero Block Padding and matching Check field, DATA_ERROR exactly for non-zero "
+         "padding or a differing Check (unless None / unsupported / ignore_check); with a wrong declared "
+         "Compressed or Uncompressed Size STREAM_END is never returned; on success the Block ends exactly "
+         "after the Check field, actual sizes and the raw Check are handed back, exactly the produced bytes "
+         "were fed to the integrity check; no out-of-bounds access",
+    bounds_q="payload 1..5 compressed / 0..5 uncompressed bytes, every Check id with field size <= 8, Block version 0/1, 2 symbolic cut points for input and output + final call",
+    bounds_t="payload <= 2 bytes, every Check id with field size <= 32 (adds SHA-256-sized fields), one cut point + final call",
     outside="the filter chain itself; Check ids with 64-byte fields; payloads beyond the bound (the accounting is by counters, not by content)"))
 # Index verification (index_hash.c) vs the one valid encoding of the decoded Blocks
 IH_UNITS = [S + "common/common.c", S + "common/vli_decoder.c", S + "common/vli_size.c", S + "check/check.c"]
-for _nm, _tiers, _k, _calls, _unw, _to in [("index_hash_exact_1call", ("quick", "thorough"), 1, 0, 16, 600), ("index_hash_exact_sliced", ("thorough",), 1, 1, 16, 2400), ("index_hash_exact_2rec", ("thorough",), 2, 1, 20, 3600)]:
+for _nm, _tiers, _k, _calls, _unw, _to in [("index_hash_exact_1call", ("quick", "thorough"), 1, 0, 16, 600), ("index_hash_exact_sliced", ("thorough",), 1, 1, 16, 2400), ("index_hash_exact_2rec", ("thorough",), 2, 1, 20, 6000)]:
   OBLIGATIONS.append(Obligation(
     name=_nm, tiers=_tiers, src="idxhash.c", func="harness_index_hash", units=IH_UNITS,
     defs=["lzma_crc32=vstub_crc32", "KMAX=%d" % _k, "VBITS=14", "CALLS=%d" % _calls],
@@ -94,4 +116,4 @@ for _nm, _tiers, _k, _calls, _unw, _to in [("index_hash_exact_1call", ("quick", 
          "lzma_index_hash_size() equals the size of that encoding; no out-of-bounds access",
     bounds_q="K <= %d Block(s), sizes < 2^14 (VLIs of 1-2 bytes), every byte string of <= %d bytes as Index, %d symbolic cut point(s)" % (_k, 9 + 4 * _k, _calls),
     outside="more than two Records (the digest abstraction holds two); sizes beyond the bound (the full-range VLI decoder is decided in C06 vli_decode obligations)"))
-OBLIGATIONS += reuse("C03", r"lzma2_chunk_layer")   # corrupt LZMA2 chunk headers / sizes never accepted
+OBLIGATIONS += reuse("C03", r"lzma2_chunk_layer|index_decoder_vs_spec|index_buffer_decode")   # corrupt LZMA2 chunk headers / sizes, damaged or truncated Index fields never accepted
